@@ -960,6 +960,16 @@ class CSym(object):
             rt_ = [a for a in t.args if a.op == "^" and a.args[1].op == "c" and a.args[1].args[0] == Q(1, 2)]
             if len(cs_) == 1 and len(rt_) == 1 and 0 <= cs_[0].args[0] <= Q(1, 10 ** 6) and _is_int_term(rt_[0].args[0]):
                 t = rt_[0]
+            elif len(cs_) == 1 and len(rt_) == 1 and cs_[0].args[0] == -1:
+                # (int)(sqrt(x) - 1): isqrt(x) - 1 when isqrt(x) >= 1, else 0 (truncation toward zero of a value in [-1, 0))
+                k_ = self._trunc(rt_[0])
+                return tm.mk_max(tm.lift(k_) - 1, tm.ZERO) if not isinstance(k_, int) else max(k_ - 1, 0)
+        # sqrt(u + c1) with an integer u and a fudge 0 <= c1 <= 1e-6: same integer square root as sqrt(u)
+        if t.op == "^" and t.args[1].op == "c" and t.args[1].args[0] == Q(1, 2) and t.args[0].op == "+":
+            cs_ = [a for a in t.args[0].args if a.op == "c"]
+            rest_ = [a for a in t.args[0].args if a.op != "c"]
+            if len(cs_) == 1 and 0 < cs_[0].args[0] <= Q(1, 10 ** 6) and rest_ and all(_is_int_term(a) for a in rest_):
+                t = tm.mk_sqrt(tm.mk_add(*rest_))
         if t.op == "^" and t.args[1].op == "c" and t.args[1].args[0] == Q(1, 2):
             key = t.id
             if key not in self._isqrt:
